@@ -289,7 +289,7 @@ func (h *H) classifierCases() {
 	for _, m := range []int{0, 255, 1024, 1025, 0x7fff, 0xffff} {
 		codes = append(codes, msCode(2, m, [][]byte{k, k2}, 2, 2, 0xAE), msCode(2, 1, [][]byte{k, k2}, 2, m, 0xAE))
 	}
-	for i := 0; i < h.run.N(60, 2500); i++ {
+	for i := 0; i < h.run.N(60, 1200); i++ {
 		c := h.randomCode()
 		if h.rng.Chance(40) {
 			nb := h.neighbours(c)
@@ -327,7 +327,7 @@ func (h *H) expectedIndexCases() {
 	for hh := -2; hh <= 42; hh++ {
 		cs = append(cs, t{uint32(h.rng.U64()), 1224, hh})
 	}
-	for i := 0; i < h.run.N(100, 2000); i++ {
+	for i := 0; i < h.run.N(100, 1000); i++ {
 		cs = append(cs, t{uint32(h.rng.U64()), int(int32(h.rng.U64())) * h.rng.Intn(3), h.rng.Range(-3, 45)})
 	}
 	for _, c := range cs {
@@ -401,7 +401,7 @@ func (h *H) merkleRootCases() {
 	for l := 0; l <= 40; l++ {
 		reps := 1
 		if l <= 6 {
-			reps = h.run.N(3, 20)
+			reps = h.run.N(3, 10)
 		}
 		for r := 0; r < reps; r++ {
 			var br []common.Uint256
@@ -577,7 +577,7 @@ func (h *H) auxCases() {
 			h.auxCase(auxSpec{branch: l, nonce: uint32(h.rng.U64()), nibble: true, cut: 1 + h.rng.Intn(6), note: "nibble-shifted truncated"})
 		}
 	}
-	for i := 0; i < h.run.N(30, 1000); i++ {
+	for i := 0; i < h.run.N(30, 500); i++ {
 		s := auxSpec{branch: h.rng.Intn(8), nonce: uint32(h.rng.U64()), suffix: h.rng.Intn(6), prefix: h.rng.Intn(8), cbBranch: h.rng.Intn(4), note: "random"}
 		if h.rng.Chance(15) {
 			s.branch = h.rng.Range(28, 40)
